@@ -14,6 +14,7 @@ pub mod pool;
 pub mod rng;
 pub mod shimapi;
 pub mod snap;
+pub mod watchdog;
 
 pub mod hexbytes {
     use serde::{Deserialize, Deserializer, Serializer};
